@@ -158,6 +158,7 @@ def run(rep, tier, seed):
         recs += res.records
     if not recs:
         raise Machinery("no instances")
+    stride = max(1, len(recs) // 6000)
     by = {}
     for r in recs:
         by.setdefault((len(r["alpha"]), tuple(r["pt"]), tuple(r["v"])), []).append(r)
@@ -232,6 +233,8 @@ def run(rep, tier, seed):
         if hv != wantv:
             rep.violation("init_hess_vec directions", {"N": N, "v": v, "got": sorted(hv), "expected": sorted(wantv)})
         for gi, r in enumerate(group):
+            if gi % stride:
+                continue            # (thorough: M covers every instance, R replays a budget of about 6000 spread evenly)
             alpha = r["alpha"]
             jac = numpy.array(r["jac"], dtype=float)
             hess = numpy.array(r["hess"], dtype=float)
